@@ -164,7 +164,7 @@ PROPS["C06"] = {
 }
 
 PROPS["C03"] = {
-    "imports": VIEW_IMPORTS + " Proofs.C11_Statements Proofs.C01_Statements Proofs.C03_Statements Proofs.C03b_Statements Proofs.C03c_Statements Proofs.EncodeTotal1 Proofs.EncodeTotal", "prelude": "Definition cfg := Cfg{TAG}.cfg.",
+    "imports": VIEW_IMPORTS + " Proofs.C11_Statements Proofs.C01_Statements Proofs.C03_Statements Proofs.C03b_Statements Proofs.C03c_Statements Proofs.EncodeTotal1 Proofs.EncodeTotal Proofs.RedecodeNormalForm", "prelude": "Definition cfg := Cfg{TAG}.cfg.",
     "level_text": "Theorem (K2) for every configuration and every datum satisfying the boolean data_wf (no private override fields, operand kinds fit the opcodes, jumps designate existing blocks, relative jumps forward): the emitted code object is read back by CPython's disassembler and line reader (Spec/Dis.v, Spec/Lnotab.v) as the data's instruction stream - opcodes, resolved operands (constants up to key equality), jump targets as instruction indices with kind, lines - and the header fields say what the data says; to_code terminates for all data without negative size overrides (real termination proof of the jump-width fix-point) and RETURNS a code object for well-formed data exactly when enc_ok holds (stack size >= 0, free-variable operands declared, no positional-only parameters before 3.8, flags expressible: C03_to_code_returns_iff_enc_ok, both directions); at exit every jump operand is the one the layout requires; gap and collision overrides raise. data_wf and the conclusion are evaluated on every generated datum (wf-monitor); full from_code_data outputs of model and code are compared on hand-built graphs incl. inconsistent overrides", "level_note": "the clause 're-decoding gives the data up to normalization' is proved on the flattened instruction stream (C03_emitted_code_is_in_the_decoder_domain, C03_redecode_gives_the_stream: the emitted code satisfies view_wf and its decoding reads as the input's stream, constants up to key equality); and, for data whose blocks are cut at the jump-target partition (blocks_canonical), C03_redecode_gives_the_data_up_to_normalization proves that the re-decoded data is == to the input up to normalization (blocks, header, signature, docstring, nested constants); without that premise the statement is refuted in Coq; data with line_number=None is outside data_wf before 3.10 (the format cannot express it; to_code raises TypeError); a negative _n_args_override makes to_code loop forever (RelaxProofs.relax_diverges) - not well-formed data", "trusted_base": COMMON_TB + ["dis / co_lines / PyCode_Addr2Line of the running interpreter as readers of the emitted code"],
     "assumptions": ["line_number is not None on <= 3.9 (the co_lnotab format cannot express 'no line'; to_code raises TypeError there)"],
     "rule": "hand-built block graphs without override fields: 1-7 blocks of 1-260 instructions, absolute jumps in both directions, forward relative jumps, name tables of 3-300 (thorough 70000) entries, "
